@@ -19,7 +19,16 @@ const maxPaths = 6000
 
 func (fe *FE) tagsOf(c *Clause) []string {
 	if c != nil && len(c.Tags) > 0 {
-		return c.Tags
+		// clause tags narrowed to the properties this function serves (templates carry tags for several)
+		var out []string
+		for _, t := range c.Tags {
+			if hasTag(fe.C.Props, t) {
+				out = append(out, t)
+			}
+		}
+		if len(out) > 0 {
+			return out
+		}
 	}
 	return fe.C.Props
 }
@@ -620,6 +629,10 @@ func (fe *FE) execInstr(st *State, ins ssa.Instruction, b *ssa.BasicBlock, idx i
 		if id, ok := x.Expr.(*ast.Ident); ok {
 			if _, isVar := x.Object().(*types.Var); isVar {
 				v := fe.valOf(st, x.X)
+				if !x.IsAddr && fe.isAddrVar(x.Object()) {
+					// the variable lives in a cell (captured / address taken): its name keeps denoting the cell
+					return true
+				}
 				if x.IsAddr {
 					if v.Kind == VLoc {
 						st.names[id.Name] = v
@@ -1374,4 +1387,21 @@ func (fe *FE) localType(name string) types.Type {
 		}
 	}
 	return fe.locals[name]
+}
+
+// isAddrVar: the variable has an address-taken DebugRef somewhere in the function (it lives in a cell).
+func (fe *FE) isAddrVar(obj types.Object) bool {
+	if fe.addrVars == nil {
+		fe.addrVars = map[types.Object]bool{}
+		for _, b := range fe.Fn.Blocks {
+			for _, ins := range b.Instrs {
+				if d, ok := ins.(*ssa.DebugRef); ok && d.IsAddr {
+					if _, isAlloc := d.X.(*ssa.Alloc); isAlloc {
+						fe.addrVars[d.Object()] = true
+					}
+				}
+			}
+		}
+	}
+	return fe.addrVars[obj]
 }
